@@ -18,6 +18,7 @@ type ReplayFile struct {
 	RunSeed    uint64     `json:"run_seed"`
 	Tier       string     `json:"tier"`
 	Tape       []uint64   `json:"tape"`
+	EnumIndex  *int       `json:"enum_index,omitempty"` // set for a failure of the enumerated part (no tape)
 	OrigLen    int        `json:"original_tape_len"`
 	ShrinkExec int        `json:"shrink_executions"`
 	Violation  *Violation `json:"violation"`
